@@ -152,11 +152,17 @@ fn enumerate() {
     for line in std::fs::read_to_string(format!("{dir}/domains.txt")).unwrap().lines() {
         let f: Vec<&str> = line.split('\t').collect();
         let (prefix, suffix) = (unhex(f[0]), unhex(f[1]));
-        let alpha: Vec<char> = unhex(f[2]).chars().collect();
+        // the alphabet is a list of strings (single characters or whole tokens) separated by U+001F
+        let alpha_text = unhex(f[2]);
+        let alpha: Vec<&str> = alpha_text.split('\u{1f}').collect();
         let maxlen: usize = f[3].parse().unwrap();
         let mut idx: Vec<usize> = vec![];
         loop {
-            let s: String = prefix.chars().chain(idx.iter().map(|&i| alpha[i])).chain(suffix.chars()).collect();
+            let mut s = prefix.clone();
+            for &i in &idx {
+                s.push_str(alpha[i]);
+            }
+            s.push_str(&suffix);
             check(&s, &mut out);
             n += 1;
             let mut k = idx.len();
